@@ -11,6 +11,7 @@ import (
 	"verif/harness/core"
 	"verif/harness/env"
 	"verif/harness/keys"
+	"verif/harness/sim"
 	"verif/harness/spsim"
 )
 
@@ -42,6 +43,16 @@ func tenantWorld(rng *rand.Rand) (*env.Env, []*tenant) {
 		}
 		ts = append(ts, t)
 	}
+	// the same entity ID is also registered in the default tenant: what a lookup made without the request's issuer
+	// (a context that is not the request's) resolves to
+	dd := stdSP(0)
+	dd.Cert = keys.Get("attacker")
+	dd.AuthnRequestsSigned = ""
+	dd.ACS = []spsim.ACS{{Binding: spsim.BindPost, Location: "https://sp.example/default-tenant/acs", Index: "0"}}
+	dd.SLO = []spsim.SLO{{Binding: spsim.BindPost, Location: "https://sp.example/default-tenant/slo"}}
+	if err := e.W.AddSPForTenant("", "app-default", dd.XML()); err != nil {
+		panic(err)
+	}
 	return e, ts
 }
 
@@ -59,6 +70,18 @@ func tenantSequence(r *core.Run, wl string, idx int, rng *rand.Rand, judgeTarget
 		}
 		r.Count("tenant_sequence_requests", 1)
 		r.Eval(fmt.Sprintf("%s|%d", class, idx))
+		// now and then the first service-provider lookup of the request runs into the storage's own deadline
+		e.W.Plan = nil
+		if rng.Intn(4) == 0 {
+			kind := []string{sim.FaultTimeout, sim.FaultTemporary, sim.FaultPoolClosed}[rng.Intn(3)]
+			e.W.Plan = func(_, op string, occ int) string {
+				if op == "GetEntityByID" && occ == 1 {
+					return kind
+				}
+				return ""
+			}
+			class += "|first_lookup_" + kind
+		}
 		if rng.Intn(3) == 0 { // logout
 			l := conformantLogout(rng, t.Desc)
 			s := ssoSend{Path: env.PathSLO, Binding: "post", XML: l.XML(rng), HasRelay: true, Relay: "MKrelay", Host: t.Host}
